@@ -53,6 +53,10 @@ def checks_of(fn, args):
             if name not in args:
                 raise P.Unrecognised('range check on unknown name %s' % name)
             out.append((args.index(name), lo, hi, exc))
+    if sorted(set(c[0] for c in out)) != list(range(len(args))):
+        # the checks are not written in the idiom this extractor understands (e.g. moved into a helper):
+        # say so instead of emitting a model without range checks; the correspondence run then decides alone
+        raise P.Unrecognised('range checks found for fields %s only' % sorted(set(args[c[0]] for c in out)))
     return out
 
 
